@@ -124,6 +124,19 @@ def run(ck: Check, prog: Program) -> None:
                  and dotted(n.ast.value) == rv]
         if len(links) != 1:
             p2.append(('accepted responses are not linked to their requests', h.line, 'response.related = request expected in the loop'))
+        else:
+            # the link is made exactly for the responses that were found
+            lk = links[0]
+            rvar = dotted(lk.ast.targets[0].value)
+            found = None
+            for g in guard_edges(bcfg, lk):
+                ckd = classify_cond(prog, brel, g.src.ast)
+                if ckd.kind == 'is-none' and ckd.subject == rvar:
+                    found = (g.label == 'T') == ckd.negated      # True: runs when the response is NOT None
+            if found is not True:
+                p2.append(('responses are linked under the wrong condition', lk.line,
+                           f'`{norm(lk.ast)}` must run exactly when the looked-up response is not None; found it '
+                           f'{"when the response IS None" if found is False else "without a test of the looked-up response"}'))
         # every call of the batch is looked up: the loop over the requests ends only by exhaustion (or by raising), and an
         # iteration can avoid the lookup only for a notification (request id None)
         body_start = [e.dst for e in bcfg.succ[h.id] if e.label == 'body']
@@ -264,6 +277,56 @@ def run(ck: Check, prog: Program) -> None:
     if not ok_b:
         ck.finding('ERROR-RAISED', br.qualname, 'batch-level error not raised', br.module.rel, br.node.lineno,
                    'a batch-level error object must be raised for the batch')
+    # `related` is a plain stored link: what _relate stores is what the caller reads back (getter returns the attribute the setter writes)
+    for cq_ in (V20 + '.Response', V20 + '.BatchResponse'):
+        rc_ = prog.cls(cq_)
+        getter = next((m for m in prog.funcs.values() if m.cls is rc_ and m.name == 'related' and m.kind == 'property'), None)
+        setter = next((m for m in prog.funcs.values() if m.cls is rc_ and m.name == 'related' and m.kind == 'setter'), None)
+        if getter is None or setter is None:
+            raise AnalysisError(f'{cq_}.related property pair not found')
+        ck.functions |= {getter.qualname, setter.qualname}
+        g_attr = None
+        for x in walk_own(getter.node):
+            if isinstance(x, ast.Return) and x.value is not None and dotted(x.value) and dotted(x.value).startswith('self.'):
+                g_attr = dotted(x.value)
+        s_attr = None
+        sparam = setter.params[1].arg if len(setter.params) > 1 else None
+        for x in walk_own(setter.node):
+            if isinstance(x, ast.Assign) and len(x.targets) == 1 and dotted(x.targets[0]) and dotted(x.targets[0]).startswith('self.') and \
+                    dotted(x.value) == sparam:
+                s_attr = dotted(x.targets[0])
+        ok_rel = g_attr is not None and g_attr == s_attr
+        ck.ob('RELATE-STRICT', f'{rc_.name}.related returns what the setter stored', ok_rel, sample={'getter': g_attr, 'setter': s_attr})
+        if not ok_rel:
+            ck.finding('RELATE-STRICT', getter.qualname, 'related link is not stored / not returned', rc_.module.rel, getter.node.lineno,
+                       f'{rc_.name}.related: the getter returns `{g_attr}` and the setter stores `{s_attr}`: the request a response was related to '
+                       f'by _relate is not what the caller reads back')
+    # the batch-level error form is recognised exactly for an object without id that carries an error
+    bfj = prog.func(V20 + '.BatchResponse.from_json')
+    ck.functions.add(bfj.qualname)
+    fcfg = CFG(bfj, prog)
+    err_rets = [n for n in fcfg.stmt_nodes() if isinstance(n.ast, ast.Return) and isinstance(n.ast.value, ast.Call) and
+                any(k.arg == 'error' for k in n.ast.value.keywords)]
+    okbe = bool(err_rets)
+    whybe = 'no `return cls(error=...)`'
+    for n in err_rets:
+        conj = set()
+        for g in guard_edges(fcfg, n):
+            ckd = classify_cond(prog, bfj, g.src.ast)
+            if ckd.kind == 'is-none' and (g.label == 'T') != ckd.negated:
+                conj.add('id-none')
+            if ckd.kind == 'is-unset' and (g.label == 'T') == ckd.negated:
+                conj.add('error-set')
+            if ckd.kind == 'isinstance' and 'dict' in ckd.detail and (g.label == 'T') != ckd.negated:
+                conj.add('object')
+        if not {'id-none', 'error-set', 'object'} <= conj:
+            okbe = False
+            whybe = f'`{norm(n.ast)[:60]}` is guarded by {sorted(conj)} only'
+    ck.ob('ERROR-RAISED', 'BatchResponse.from_json: the batch-level error form is an object with null id AND an error member', okbe)
+    if not okbe:
+        ck.finding('ERROR-RAISED', bfj.qualname, 'batch-level error form recognised under another condition', bfj.module.rel, bfj.node.lineno,
+                   f'the batch-level error branch must be taken exactly for a JSON object whose id is null and that has an error member; {whybe}: '
+                   f'a single response with an id is taken for a batch-level error, or an object without error raises KeyError-derived noise')
     # ... and that property is what the batch notations hand back: Batch.call / AsyncBatch.call return `response.result` (which raises),
     # not something rebuilt from the elements (a batch-level error has no elements)
     from ..flow import Flow as _FlowC
